@@ -558,7 +558,7 @@ def enum_selfclose(rec, shard):
 
 def main(ctx):
     ctx.pmap('enum_selfclose', [False, True])
-    n = 200 if ctx.tier == 'quick' else 6000
+    n = 500 if ctx.tier == 'quick' else 6000
     steps = 25 if ctx.tier == 'quick' else 40
     shards = []
     for idx in range(len(KINDS)):
